@@ -238,6 +238,10 @@ impl<'tcx> Cx<'tcx> {
                 ProjectionElem::Deref => J::Obj(vec![("k", s("deref"))]),
                 ProjectionElem::Field(f, t) => {
                     let mut fname = J::Null;
+                    let mut parent = J::Null;
+                    if let ty::Adt(def, _) = pty.ty.kind() {
+                        parent = s(self.def_name(def.did()));
+                    }
                     if let ty::Adt(def, _) = pty.ty.kind() {
                         let vi = pty.variant_index.unwrap_or(rustc_abi::FIRST_VARIANT);
                         if def.is_enum() || def.is_struct() || def.is_union() {
@@ -251,6 +255,7 @@ impl<'tcx> Cx<'tcx> {
                         ("k", s("field")),
                         ("i", J::Int(f.index() as i128)),
                         ("name", fname),
+                        ("parent", parent),
                         ("ty", self.ty(t)),
                     ])
                 }
@@ -499,10 +504,41 @@ impl<'tcx> Cx<'tcx> {
             DefKind::Fn | DefKind::AssocFn | DefKind::Closure => tcx.optimized_mir(def_id),
             _ => return None,
         };
+        self.body_json(did, body, None)
+    }
+
+    fn promoted(&self, did: LocalDefId) -> Vec<J> {
+        let tcx = self.tcx;
+        let def_id = did.to_def_id();
+        let kind = tcx.def_kind(def_id);
+        let mut v = vec![];
+        if matches!(kind, DefKind::Fn | DefKind::AssocFn | DefKind::Closure) {
+            for (i, b) in tcx.promoted_mir(def_id).iter_enumerated() {
+                if let Some(j) = self.body_json(did, b, Some(i.index())) {
+                    v.push(j);
+                }
+            }
+        }
+        v
+    }
+
+    fn body_json(&self, did: LocalDefId, body: &Body<'tcx>, promoted: Option<usize>) -> Option<J> {
+        let tcx = self.tcx;
+        let def_id = did.to_def_id();
+        let kind = tcx.def_kind(def_id);
         let env = TypingEnv::post_analysis(tcx, def_id);
         let mut o: Vec<(&'static str, J)> = vec![];
-        o.push(("def", s(self.def_key(def_id))));
-        o.push(("name", s(self.def_name(def_id))));
+        match promoted {
+            None => {
+                o.push(("def", s(self.def_key(def_id))));
+                o.push(("name", s(self.def_name(def_id))));
+            }
+            Some(i) => {
+                o.push(("def", s(format!("{}::promoted[{}]", self.def_key(def_id), i))));
+                o.push(("name", s(format!("{}::promoted[{}]", self.def_name(def_id), i))));
+            }
+        }
+        o.push(("promoted", promoted.map(|i| J::Int(i as i128)).unwrap_or(J::Null)));
         o.push(("kind", s(format!("{:?}", kind))));
         o.push(("item", s(tcx.opt_item_name(def_id).map(|n| n.to_string()).unwrap_or_default())));
         // owner impl info
@@ -929,6 +965,7 @@ impl rustc_driver::Callbacks for Cb {
             if let Some(b) = cx.body(did) {
                 bodies.push(b);
             }
+            bodies.extend(cx.promoted(did));
             let def_id = did.to_def_id();
             if matches!(tcx.def_kind(def_id), DefKind::Fn | DefKind::AssocFn | DefKind::Closure) {
                 let body = tcx.optimized_mir(def_id);
